@@ -182,6 +182,8 @@ class Cli(list):
     """a command line that also says how the working directory looks (read by props/c12.py run_start_case)"""
     link = None
     decoys = {}
+    subdir = None      # second pass: the working directory is this path below the scratch directory
+    kind = None        # second pass: 'dir' / 'dangling' / 'loop' / 'fifo' - rws.config.toml exists but is no regular file
 
 def all_vars_case(P, rng, exclude=(), srcs=(0, 1, 2), render=None, form=None):
     env, fa, cli = [], [], []
@@ -427,4 +429,438 @@ def stage_cases(P, rng, quick):
             add('cfgget', [P.enc_env([(var, n)])], 'get', {var: P.b(n)})
     for ip in ['', ' ', '::1', '[::1]', 'fe80::1%lo', 'höst', '0', 'a b', 'x' * 300, '127.0.0.1\n']:
         add('cfgget', [P.enc_env([('RWS_CONFIG_IP', ip)])], 'get', {'RWS_CONFIG_IP': P.b(ip)})
+    return out
+
+
+# ====================================================================================================
+# SECOND AUDIT PASS (audit/C12/AUDIT2.md): relations inside one configuration and between two calls.
+# The classes below are the inputs on which a well-meant feature or clean-up of the start-up code goes
+# wrong: a multi-byte character across a fixed byte offset, a line across a chunk boundary, two settings
+# whose values are related (equal, CORS-spec pairs, typical "trigger" values), a documented key name in
+# a foreign table, the entry behind a count limit, Unicode white space / case / normalisation inside a
+# value, texts that look like escapes or interpolations, the odd working directory, an unrelated
+# variable that is not Unicode, and the call AFTER a long / short / failing one.
+#   start_cases2(P, rng, quick) / stage_cases2(P, rng, quick): same result shapes as above.
+# ====================================================================================================
+import os
+
+# values a "dependent default" or a cross-setting validation would branch on (all inside the C12_toml class)
+TRIGGERS = {
+    'RWS_CONFIG_IP': ['0.0.0.0', 'localhost', '::', '::1', '127.0.0.1', '255.255.255.255', '*', '0', 'example.com'],
+    'RWS_CONFIG_PORT': ['0', '1', '80', '443', '1023', '1024', '8080', '8443', '7878', '65535', '65536'],
+    'RWS_CONFIG_THREAD_COUNT': ['0', '1', '2', '16', '200', '1000', '100000', '-1'],
+    'RWS_CONFIG_CORS_ALLOW_ALL': ['true', 'false'],
+    'RWS_CONFIG_CORS_ALLOW_ORIGINS': ['*', 'null', 'https://foo.example', 'http://localhost'],
+    'RWS_CONFIG_CORS_ALLOW_METHODS': ['*', 'GET', 'OPTIONS', 'GET,POST,OPTIONS', 'POST,PUT'],
+    'RWS_CONFIG_CORS_ALLOW_HEADERS': ['*', 'content-type', 'authorization', 'content-type,x-custom-header'],
+    'RWS_CONFIG_CORS_ALLOW_CREDENTIALS': ['true', 'false'],
+    'RWS_CONFIG_CORS_EXPOSE_HEADERS': ['*', 'content-length', 'content-type,x-custom-header'],
+    'RWS_CONFIG_CORS_MAX_AGE': ['0', '-1', '1', '5', '600', '7200', '86400', '86401', '2147483647', '2147483648'],
+    'RWS_CONFIG_REQUEST_ALLOCATION_SIZE_IN_BYTES': ['0', '1', '-1', '512', '1024', '4096', '8192', '9999', '10000', '10001', '65536', '1048576',
+                                                    '2147483647', '2147483648'],
+}
+A, O, M, H, CR, E, G = ('RWS_CONFIG_CORS_ALLOW_ALL', 'RWS_CONFIG_CORS_ALLOW_ORIGINS', 'RWS_CONFIG_CORS_ALLOW_METHODS', 'RWS_CONFIG_CORS_ALLOW_HEADERS',
+                        'RWS_CONFIG_CORS_ALLOW_CREDENTIALS', 'RWS_CONFIG_CORS_EXPOSE_HEADERS', 'RWS_CONFIG_CORS_MAX_AGE')
+# pairs a validation "as the CORS / socket rules say" would couple
+PAIRS = [[(CR, 'true'), (O, '*')], [(CR, 'true'), (H, '*')], [(CR, 'true'), (M, '*')], [(CR, 'true'), (E, '*')], [(CR, 'true'), (A, 'true')],
+         [(CR, 'true'), (A, 'false')], [(A, 'true'), (O, 'https://foo.example')], [(A, 'true'), (G, '600')], [(A, 'false'), (G, '0')],
+         [(A, 'false'), (O, '*')], [(A, 'true'), (M, 'POST,PUT'), (H, 'content-type'), (E, 'content-type'), (CR, 'true'), (O, 'https://foo.example')],
+         [(O, 'null'), (CR, 'true')], [(M, 'OPTIONS'), (G, '-1')], [(H, '*'), (E, '*')],
+         [('RWS_CONFIG_IP', '0.0.0.0'), ('RWS_CONFIG_PORT', '80')], [('RWS_CONFIG_IP', 'localhost'), ('RWS_CONFIG_PORT', '443')],
+         [('RWS_CONFIG_IP', '::'), ('RWS_CONFIG_PORT', '0')], [('RWS_CONFIG_THREAD_COUNT', '0'), ('RWS_CONFIG_REQUEST_ALLOCATION_SIZE_IN_BYTES', '0')],
+         [('RWS_CONFIG_THREAD_COUNT', '1'), ('RWS_CONFIG_PORT', '65535')], [('RWS_CONFIG_THREAD_COUNT', '100000'), ('RWS_CONFIG_REQUEST_ALLOCATION_SIZE_IN_BYTES', '1048576')],
+         [('RWS_CONFIG_PORT', '443'), (A, 'false')], [('RWS_CONFIG_IP', '0.0.0.0'), (A, 'true')]]
+# Unicode White_Space that may stand INSIDE a written value (all are legal in a TOML string; the parser's white space is space and TAB)
+INNER_WS = ['\u00a0', '\u0085', '\u1680', '\u2000', '\u2003', '\u200a', '\u2028', '\u2029', '\u202f', '\u205f', '\u3000']
+# texts a case folding / a normalisation (NFC, NFKC) / a "lower-case list" would change
+FOLDS = ['MiXeD-Case', 'X-Requested-With', 'İstanbul', 'straße', 'STRASSE', 'ǅ', '\u212a', '\u212b', '\u2126', 'e\u0301', '\u00e9', '\u1e9b\u0323',
+         '\ufb01', '\u2460', '\uff21\uff22\uff23', 'ı', 'ſ', 'ΣΑΣ', 'ﬆ']
+# texts an escape processor / an interpolation / a URL decoding would change; a backslash is written in '…' or bare only
+LITERALS = ['C:\\temp\\new', 'a\\tb', 'a\\nb', '\\u00e9', '\\x41', '\\\\server\\share', 'a\\', '\\', '${HOME}', '$HOME', '$PATH', '%PATH%', '~', '~/x',
+            '$(id)', '{}', '{0}', '{{x}}', '%s', '%d', '%%', '&amp;', '%20', 'a%2Cb', 'a%3Db', 'a+b', 'a%00b', '$', '$$', '$1', '$RWS_CONFIG_PORT',
+            '${RWS_CONFIG_IP}', '@file', '!include', '<x>', 'null', 'None', 'nil', 'undefined', '-', '--', '0x', 'NaN']
+FOREIGN_BEFORE = ['server', 'logging', 'tls', 'Cors', 'CORS', 'corsx', 'xcors', 'co', 'c', 'default', 'rws', 'config', 'env']
+FOREIGN_AFTER = FOREIGN_BEFORE + ['cors.extra', 'cors_extra', 'cors-x', 'cors.cors', 'server.cors']
+
+def place(P, var, v, src, low=None):
+    """(env, file assignments|None, cli) that give `v` to `var` through source `src`; `low`: another value from every lower source"""
+    env = [(var, v)] if src == 0 else [(var, low)] if low is not None else []
+    fa = [(var, v)] if src == 1 else [(var, low)] if low is not None and src == 2 else None
+    return env, fa
+
+def aligned(ch, p, nbytes, tail=''):
+    """`p` ASCII bytes, then the multi-byte character `ch` repeated up to about `nbytes` bytes: every byte offset that is not
+    congruent to p modulo the width of `ch` lies INSIDE a character"""
+    return 'a' * p + ch * ((nbytes - p) // len(ch.encode())) + tail
+
+def doc_key_lines(P, rng, names, tag):
+    """assignment lines that use DOCUMENTED key names - to be placed where they do not spell a setting"""
+    out = []
+    for s in names:
+        key = P.spell_key(rng, s[4])
+        out.append(sp(rng) + key + sp(rng) + '=' + sp(rng) + rng.choice(['"%s"' % tag, "'%s'" % tag, '1', 'false', '["%s"]' % tag, '9999']) + comment2(rng))
+    return out
+
+def render_file3(P, rng, assigns, foreign=True, many=0, many_after=False, eol=None, final_eol=True):
+    """like render_file2, plus: documented key names in foreign tables (before and after [cors]), [cors] key names at top level,
+    top-level key names inside [cors] (TOML: cors.port is not port), and `many` unknown assignment lines in front of the settings
+    (or behind them).  Returns (text, documented assignments in file order)."""
+    S = P.SETTINGS
+    tops, corss = [s for s in S if not s[3]], [s for s in S if s[3]]
+    top = [(v, x) for v, x in assigns if P.BYVAR[v][3] == '']
+    cors = [(v, x) for v, x in assigns if P.BYVAR[v][3] == 'cors']
+    rng.shuffle(top); rng.shuffle(cors)
+    lines, order = [], []
+    filler = [sp(rng) + f'opt_{i}' + sp(rng) + '=' + sp(rng) + rng.choice([f'"v{i}"', str(i), 'true', f'["{i}"]']) for i in range(many)]
+    lines += noise2(rng)
+    if not many_after: lines += filler[:many // 2]
+    body = [('a', assign2(P, rng, v, x), (v, x)) for v, x in top]
+    if foreign: body += [('f', ln, None) for ln in doc_key_lines(P, rng, [s for s in corss if rng.chance(1, 3)], 'toplevel')]
+    rng.shuffle(body)
+    for k, ln, a in body:
+        lines.append(ln)
+        if a: order.append(a)
+    if foreign and rng.chance(2, 3):
+        for t in [rng.choice(FOREIGN_BEFORE) for _ in range(rng.range(1, 2))]:
+            lines.append(sp(rng) + '[' + t + ']' + comment2(rng))
+            lines += doc_key_lines(P, rng, [s for s in S if rng.chance(1, 3)], 'foreign')
+    if many and not many_after:
+        lines.append('[extras]'); lines += filler[many // 2:]
+    if cors or rng.chance(1, 2):
+        lines.append(sp(rng) + '[' + sp(rng, 0, 1) + 'cors' + sp(rng, 0, 1) + ']' + comment2(rng))
+        body = [('a', assign2(P, rng, v, x), (v, x)) for v, x in cors]
+        if foreign: body += [('f', ln, None) for ln in doc_key_lines(P, rng, [s for s in tops if rng.chance(1, 3)], 'incors')]
+        rng.shuffle(body)
+        for k, ln, a in body:
+            lines.append(ln)
+            if a: order.append(a)
+            lines += noise2(rng)[:1]
+    if foreign and rng.chance(2, 3):
+        for t in [rng.choice(FOREIGN_AFTER) for _ in range(rng.range(1, 2))]:
+            lines.append(sp(rng) + '[' + t + ']' + comment2(rng))
+            lines += doc_key_lines(P, rng, [s for s in S if rng.chance(1, 3)], 'foreign')
+    if many and many_after:
+        lines.append('[extras]'); lines += filler
+    text = ''
+    for i, ln in enumerate(lines):
+        e = eol if eol is not None else rng.choice(['\n', '\r\n'])
+        text += ln + (e if (final_eol or i + 1 < len(lines)) else '')
+    return text, order
+
+BOUNDS = [64, 128, 256, 512, 1024, 2048, 4096, 8192, 16384, 32768, 65536]
+
+def boundary_file(P, rng, bounds, eol='\n'):
+    """every setting is given by a line that lies ACROSS one of the byte offsets `bounds` (a reader that works in chunks, a
+    buffer of that size): the offset falls into the key, onto the `=`, into the value, between the two bytes of an `é` of the
+    value, between CR and LF, or exactly behind the line.  The [cors] line takes part.  Filled up with comment lines."""
+    S = P.SETTINGS
+    tops = [s for s in S if not s[3]]; corss = [s for s in S if s[3]]
+    rng.shuffle(tops); rng.shuffle(corss)
+    items = tops + [None] + corss
+    buf, order = b'', []
+    e = eol.encode()
+    bi = 0
+    for s in items:
+        if s is None:
+            line, a = '[cors]' + rng.choice(['', ' ', ' # table']), None
+        else:
+            var = s[0]
+            v = P.value_for(rng, var, 1)
+            if var in P.LISTY or var == 'RWS_CONFIG_IP': v = v + rng.choice(['.é', '-é', 'é'])
+            key = P.spell_key(rng, s[4])
+            q = rng.choice(['"', "'", '']) if var not in P.LISTY else rng.choice(['"', "'"])
+            line = key + rng.choice([' = ', '=', '  =\t']) + q + v + q + rng.choice(['', '', ' # c', '\t#'])
+            a = (var, v)
+        raw = line.encode()
+        mode = rng.choice(['key', 'eq', 'value', 'mb', 'eol', 'after', 'any'])
+        if mode == 'key': k = rng.range(1, max(1, min(3, len(raw) - 1)))
+        elif mode == 'eq': k = raw.index(b'=') if b'=' in raw else 1
+        elif mode == 'value': k = (raw.index(b'=') + 2 + rng.below(4)) if b'=' in raw else len(raw) - 1
+        elif mode == 'mb': k = raw.index(b'\xc3') + 1 if b'\xc3' in raw else len(raw) - 1
+        elif mode == 'eol': k = len(raw) + (1 if len(e) == 2 else 0)
+        elif mode == 'after': k = len(raw) + len(e)
+        else: k = rng.range(1, len(raw))
+        k = max(1, min(k, len(raw) + len(e)))
+        while bi < len(bounds) and bounds[bi] - k - len(buf) < len(e) + 1 and bounds[bi] - k != len(buf): bi += 1
+        if bi < len(bounds):
+            gap = bounds[bi] - k - len(buf)
+            while gap > 0:
+                take = gap if gap <= 120 + len(e) + 1 else min(gap - len(e) - 1, rng.range(40, 120))
+                if take < len(e) + 1: break
+                buf += b'#' + rng.choice([b'p', b'=', b'-']) * (take - 1 - len(e)) + e
+                gap -= take
+            bi += 1
+        buf += raw + e
+        if a: order.append(a)
+    return buf.decode(), order
+
+def start_cases2(P, rng, quick):
+    S = []
+    VARS, BYVAR = P.VARS, P.BYVAR
+    def add(kind, env, fa, cli, judged=True, render=render_file2, **kw):
+        if fa is None: file, assigns = None, None
+        else: file, assigns = render(P, rng, fa, **kw)
+        S.append((kind, (env, file, cli), assigns, judged))
+    def put(var, v, src, low=None, form=None):
+        env, fa = place(P, var, v, src, low)
+        return env, fa, ([P.cli_arg(rng, var, v, form)] if src == 2 else [])
+    LONGV = ['RWS_CONFIG_CORS_ALLOW_ORIGINS', 'RWS_CONFIG_CORS_ALLOW_HEADERS', 'RWS_CONFIG_CORS_EXPOSE_HEADERS', 'RWS_CONFIG_IP', 'RWS_CONFIG_CORS_ALLOW_METHODS']
+    # H1 a multi-byte character across EVERY byte offset (a log line or a buffer capped at a byte count): p ASCII bytes, then 2- / 3- /
+    #    4-byte characters only; the three sources; each value is also the one that must arrive
+    for i, (p, ch) in enumerate([(0, '😀'), (1, '😀'), (2, '😀'), (3, '😀'), (0, 'é'), (1, 'é'), (0, '中'), (1, '中'), (2, '中')]):
+        for src in ((0, 1, 2) if not quick else ((i + j) % 3 for j in (0, 1))):
+            n = 330 if quick or i % 3 else 70000
+            if quick and i == 3: n = 9000
+            var = LONGV[(i + src) % len(LONGV)]
+            env, fa, cli = put(var, aligned(ch, p, n, str(src)), src, low='low')
+            add('gen2 multi-byte at every offset', env, fa, cli, unknown=False)
+    # H2 typical values alone (a default that depends on another setting, a range check, a special case for a well-known value):
+    #    every other setting must stay at its documented default
+    k = rng.below(3)
+    for var in VARS:
+        for v in TRIGGERS[var]:
+            k += 1
+            for src in ((k % 3,) if quick else (0, 1, 2)):
+                env, fa, cli = put(var, v, src)
+                add('gen2 typical value alone', env, fa, cli, unknown=False)
+    # H3 pairs (and one sextuple) a cross-setting validation would couple: same source, and one from below / one from above
+    for pair in PAIRS:
+        for mode in ((rng.below(4),) if quick else range(4)):
+            env, fa, cli = [], [], []
+            for j, (var, v) in enumerate(pair):
+                src = [0, 1, 2, (j + mode) % 3][mode] if mode < 3 else rng.below(3)
+                if src == 0: env.append((var, v))
+                elif src == 1: fa.append((var, v))
+                else: cli.append(P.cli_arg(rng, var, v))
+            add('gen2 related settings', env, fa or None, cli, unknown=False)
+    for i in range(24 if quick else 600):              # random subsets of typical values, each from a source of its own
+        env, fa, cli = [], [], []
+        for var in VARS:
+            if not rng.chance(1, 3): continue
+            v, src = rng.choice(TRIGGERS[var]), rng.below(3)
+            if src == 0: env.append((var, v))
+            elif src == 1: fa.append((var, v))
+            else: cli.append(P.cli_arg(rng, var, v))
+        add('gen2 related settings', env, fa or None, cli, unknown=False)
+    # H4 equal texts: all settings hold the same text; one setting gets the same text from all sources; two list settings share a list;
+    #    the value of one setting is the name / flag / key of another
+    for src in (0, 1, 2):
+        env, fa, cli = [], [], []
+        for var in VARS:
+            e1, f1, c1 = put(var, 'same', src)
+            env += e1; fa += f1 or []; cli += c1
+        add('gen2 equal values', env, fa or None, cli)
+    for var in (rng.choice(VARS), rng.choice(VARS)):
+        v = P.value_for(rng, var, 1)
+        add('gen2 equal values', [(var, v)], [(var, v)], [P.cli_arg(rng, var, v)], unknown=False)
+        add('gen2 equal values', [(var, v)], [(var, P.value_for(rng, var, 3))], [P.cli_arg(rng, var, v)], unknown=False)
+    add('gen2 equal values', [(H, 'content-type,x-a')], [(E, 'content-type,x-a'), (M, 'content-type,x-a')], [P.cli_arg(rng, O, 'content-type,x-a')])
+    names = [('RWS_CONFIG_IP', 'port'), ('RWS_CONFIG_PORT', 'ip'), (H, 'RWS_CONFIG_CORS_EXPOSE_HEADERS'), (E, 'cors-allow-headers'), (O, 'allow_methods'),
+             (M, 'RWS_CONFIG_CORS_ALLOW_ORIGINS=x'), ('RWS_CONFIG_THREAD_COUNT', 'thread-count'), (G, 'max_age')]
+    for src in (0, 1, 2):
+        env, fa, cli = [], [], []
+        for var, v in names:
+            e1, f1, c1 = put(var, v, src)
+            env += e1; fa += f1 or []; cli += c1
+        add('gen2 value is a name', env, fa or None, cli)
+    # H5 documented key names where they do not spell the setting: foreign tables before / after [cors], [cors] keys at top level,
+    #    top-level keys inside [cors]; tables that differ from `cors` in case or by a prefix / suffix
+    for i in range(10 if quick else 200):
+        fa = [(v, P.value_for(rng, v, 1)) for v in VARS if rng.chance(1, 2)]
+        env = [(v, P.value_for(rng, v, 0)) for v in VARS if rng.chance(1, 3)]
+        cli = [P.cli_arg(rng, v, P.value_for(rng, v, 2)) for v in VARS if rng.chance(1, 5)]
+        add('gen2 documented key in a foreign table', env, fa, cli, render=render_file3, eol=rng.choice([None, '\n', '\r\n']), final_eol=rng.chance(3, 4))
+    S.append(('gen2 documented key in a foreign table', ([], '[server]\nport = 9\nip = "9.9.9.9"\n[cors]\nmax_age = 2\n[logging]\nmax_age = 3\nallow_all = false\n', []),
+              [(G, '2')], True))
+    S.append(('gen2 documented key in a foreign table', ([('RWS_CONFIG_PORT', '6000')], 'allow_all = false\nmax_age = 1\n[cors]\nport = 1\nallow_origins = ["https://a.example"]\n', []),
+              [(O, 'https://a.example')], True))
+    S.append(('gen2 documented key in a foreign table', ([], '[Cors]\nallow_all = false\n[CORS]\nmax_age = 1\n[corsx]\nallow_credentials = true\n[cors]\nallow_methods = ["PUT"]\n[cors.extra]\nallow_methods = ["GET"]\n', []),
+              [(M, 'PUT')], True))
+    # H6 the settings behind (or in front of) many other entries: a count limit, a table of fixed size
+    for n in ((33, 300) if quick else (9, 12, 17, 33, 65, 129, 257, 1025, 5000)):
+        for after in ((rng.chance(1, 2),) if quick else (False, True)):
+            fa = [(v, P.value_for(rng, v, 1)) for v in VARS]
+            add('gen2 many entries', [], fa, [], render=render_file3, foreign=False, many=n, many_after=after)
+    env = [(f'UNRELATED_{i}', f'value {i}') for i in range(600)]
+    for v in VARS: env.insert(rng.below(len(env) + 1), (v, P.value_for(rng, v, 0)))
+    add('gen2 many entries', env, None, [])
+    # H7 tiny files (a check of the first three bytes, a read of a fixed header)
+    for f in ['\n', '#', '# ', '\r\n', ' ', '\t', '#\n', '##', '# é', '\n\n']:
+        S.append(('gen2 tiny file', ([('RWS_CONFIG_PORT', '6000'), (G, '5')], f, ['-t=7']), [], True))
+    # H8 a line across a chunk boundary
+    for i in range(3 if quick else 12):
+        text, order = boundary_file(P, rng, BOUNDS if i % 3 != 2 else [b * 1000 for b in (1, 2, 4, 8, 10, 16, 32, 64, 100)] , eol=rng.choice(['\n', '\r\n']))
+        S.append(('gen2 line across a boundary', ([(v, P.value_for(rng, v, 0)) for v in VARS if rng.chance(1, 3)], text, []), order, True))
+    # H9 the working directory: blank, `=`, `#`, `%`, multi-byte in its name, a long path, a directory called rws.config.toml above it;
+    #    rws.config.toml that is no file: a directory, a dangling link, a link to itself (no configuration file: lower sources count)
+    for sub in ['my app', 'a=b', 'x#y', 'é中😀', '%41%2F..', 'rws.config.toml', '/'.join(['d' * 200] * 6), "it's \"q\"", '-p=1', '--port=1', '[cors]']:
+        fa = [(v, P.value_for(rng, v, 1)) for v in VARS if rng.chance(1, 2)] or [('RWS_CONFIG_PORT', '7001')]
+        cli = Cli([P.cli_arg(rng, v, P.value_for(rng, v, 2)) for v in VARS if rng.chance(1, 4)]); cli.subdir = sub
+        add('gen2 working directory', [(v, P.value_for(rng, v, 0)) for v in VARS if rng.chance(1, 3)], fa, cli, unknown=False)
+    for kind in ('dir', 'dangling', 'loop'):
+        cli = Cli([P.cli_arg(rng, v, P.value_for(rng, v, 2)) for v in VARS if rng.chance(1, 4)]); cli.kind = kind
+        add('gen2 no regular file', [(v, P.value_for(rng, v, 0)) for v in VARS if rng.chance(1, 2)], None, cli)
+    # genuine defects of the unchanged code found by this pass (AUDIT2.md): kept out of the default run
+    if os.environ.get('VERIF_C12_FINDINGS'):
+        cli = Cli([]); cli.kind = 'fifo'             # a named pipe called rws.config.toml: start-up never finishes
+        add('gen2 no regular file', [('RWS_CONFIG_PORT', '6000')], None, cli)
+        cli = Cli([]); cli.subdir = b'caf\xe9'       # working directory whose name is not UTF-8: the configuration file is ignored
+        add('gen2 working directory', [('RWS_CONFIG_PORT', '6000')], [('RWS_CONFIG_PORT', '7001')], cli, unknown=False)
+    # H10 unrelated variables that are not Unicode (value, name), huge, empty; names around the documented prefix
+    junk = [[(b'LC_JUNK', b'\xff\xfe')], [(b'J\xc3\x28UNK', 'x')], [('BIG', 'é' * 50000)], [('RWS_CONFIG', '1'), ('RWS_CONFIG_', '2'), ('RWS', '3'), ('_', '4')],
+            [(b'\xff', b'\xff'), ('EMPTY', '')]]
+    for j in junk:
+        env = j + [(v, P.value_for(rng, v, 0)) for v in VARS if rng.chance(1, 2)]; rng.shuffle(env)
+        fa = [(v, P.value_for(rng, v, 1)) for v in VARS if rng.chance(1, 3)]
+        add('gen2 unrelated variable', env, fa, [P.cli_arg(rng, v, P.value_for(rng, v, 2)) for v in VARS if rng.chance(1, 4)], unknown=False)
+    # H11 a flag word without `=` directly in front of a documented word (a "--flag value" form must not swallow it)
+    for s in (P.SETTINGS if not quick else [rng.choice(P.SETTINGS) for _ in range(4)]):
+        o = rng.choice([x for x in P.SETTINGS if x[0] != s[0]])
+        v = P.value_for(rng, o[0], 2)
+        bare = rng.choice(['--' + s[2], '-' + s[1]])
+        add('gen2 flag without value', [], [(s[0], P.value_for(rng, s[0], 1))] if rng.chance(1, 2) else None, [bare, P.cli_arg(rng, o[0], v), bare])
+    # H12 Unicode white space INSIDE a value, texts a case folding / normalisation / escape processing / interpolation would change
+    pool = [f'a{c}b' for c in INNER_WS] + FOLDS + LITERALS
+    picks = pool if not quick else [rng.choice(pool) for _ in range(14)]
+    for i, v in enumerate(picks):
+        var = rng.choice(LONGV)
+        src = i % 3
+        env, fa, cli = put(var, v, src, low='low' if rng.chance(1, 2) else None)
+        add('gen2 verbatim text', env, fa, cli, unknown=False)
+    # H13 near-miss flags that a Unicode case folding maps onto a documented one
+    cli = ['--ıp=NM', '-ı=NM', '--İp=NM', '--cors-allow-headerſ=NM', '-\u212a=NM', '--requeﬆ-allocation-size-in-bytes=NM', '--ＰＯＲＴ=NM', '-é=NM', '--é=NM',
+           '--port\u0301=NM', '--thread‐count=NM', '--thread\u00adcount=NM']
+    add('gen2 folded flag', [('RWS_CONFIG_IP', 'E')], None, cli)
+    return S
+
+def stage_cases2(P, rng, quick):
+    out = []
+    VARS, BYVAR = P.VARS, P.BYVAR
+    def add(op, fields, kind, payload=None): out.append((op, fields, kind, payload))
+    def f_case(env, text, order): add('cfgfile', [P.enc_env(env), C.hx(P.b(text))], 'file', (env, order, text))
+    def a_case(env, args): add('cfgargs', [P.enc_env(env), P.enc_words(args)], 'args', (env, args))
+    def d_case(env): add('cfgdef', [P.enc_env(env)], 'def', env)
+    def three(var, v, low=None):
+        d_case([(var, v)])
+        a_case([(var, low)] if low is not None else [], [P.cli_arg(rng, var, v)])
+        text, order = render_file2(P, rng, [(var, v)], unknown=False)
+        f_case([(var, low)] if low is not None else [], text, order)
+    LONGV = ['RWS_CONFIG_CORS_ALLOW_ORIGINS', 'RWS_CONFIG_CORS_ALLOW_HEADERS', 'RWS_CONFIG_CORS_EXPOSE_HEADERS', 'RWS_CONFIG_IP', 'RWS_CONFIG_CORS_ALLOW_METHODS']
+    # multi-byte at every offset
+    for ch in ('é', '中', '😀'):
+        for p in range(len(ch.encode())):
+            for n in ((70, 330) if quick else (20, 70, 330, 1100, 4200, 8300, 70000)):
+                three(rng.choice(LONGV), aligned(ch, p, n, 'z'), low='low')
+    # typical values, pairs
+    for var in VARS:
+        for v in TRIGGERS[var]: three(var, v)
+    for pair in PAIRS:
+        d_case(list(pair))
+        a_case([], [P.cli_arg(rng, var, v) for var, v in pair])
+        text, order = render_file2(P, rng, list(pair), unknown=False); f_case([], text, order)
+        text, order = render_file2(P, rng, list(pair[1:]), unknown=False); f_case([pair[0]], text, order)
+    for i in range(60 if quick else 2000):          # random subsets of typical values
+        chosen = [(v, rng.choice(TRIGGERS[v])) for v in VARS if rng.chance(1, 3)]
+        k = rng.below(3)
+        if k == 0: d_case(chosen)
+        elif k == 1: a_case([], [P.cli_arg(rng, var, v) for var, v in chosen])
+        else:
+            text, order = render_file2(P, rng, chosen, unknown=False); f_case([], text, order)
+    # equal values
+    same = [(v, 'same') for v in VARS]
+    d_case(same); a_case([], [P.cli_arg(rng, v, 'same') for v in VARS])
+    text, order = render_file2(P, rng, same); f_case([], text, order)
+    # verbatim texts through the three stages
+    for v in [f'a{c}b' for c in INNER_WS] + FOLDS + LITERALS:
+        if quick and not rng.chance(2, 3): continue
+        three(rng.choice(LONGV), v, low='low' if rng.chance(1, 2) else None)
+    for c in INNER_WS:                                   # inside a quoted value, in front of a comment; inside a bare value
+        var = rng.choice(LONGV)
+        v = f'x{c}y'
+        hdr = '[cors]\n' if BYVAR[var][3] else ''
+        for line in (f'{BYVAR[var][4]} = "{v}" # c', f"{BYVAR[var][4]} = '{v}'", f'{BYVAR[var][4]} = {v}\t# c' if var == 'RWS_CONFIG_IP' else f'{BYVAR[var][4]} = ["{v}"]'):
+            f_case([], hdr + line + '\n', [(var, v)])
+    # documented key names in foreign tables; ASCII case variants of keys and of the table; many entries
+    for i in range(80 if quick else 4000):
+        fa = [(v, val2(P, rng, v, rng.range(1, 4))) for v in VARS if rng.chance(1, 2)]
+        env = [(v, P.value_for(rng, v, 0)) for v in VARS if rng.chance(1, 4)]
+        text, order = render_file3(P, rng, fa, eol=rng.choice([None, '\n', '\r\n']), final_eol=rng.chance(3, 4))
+        f_case(env, text, order)
+    for s in P.SETTINGS:
+        hdr = f'[{s[3]}]\n' if s[3] else ''
+        for key in (s[4].upper(), s[4].capitalize(), s[4].title(), s[4][0].upper() + s[4][1:], s[4] + '_', '_' + s[4], s[4] + '.x', 'x.' + s[4]):
+            if key == s[4]: continue
+            f_case([(s[0], 'E')] if rng.chance(1, 2) else [], f'{hdr}{key} = "near"\n', [])
+        if s[3]:
+            for t in ('Cors', 'CORS', 'corS', 'cors.cors', 'a.cors'):
+                f_case([], f'[{t}]\n{s[4]} = "near"\n', [])
+    for n in ((9, 12, 17, 33, 65, 129, 257, 1025) if quick else (9, 10, 11, 12, 13, 16, 17, 31, 32, 33, 64, 65, 127, 128, 129, 255, 256, 257, 1023, 1024, 1025, 4097, 20000)):
+        for after in (False, True):
+            fa = [(v, P.value_for(rng, v, 1)) for v in VARS]
+            text, order = render_file3(P, rng, fa, foreign=False, many=n, many_after=after)
+            f_case([], text, order)
+        args = [f'--opt-{i}=v' for i in range(n)] + [P.cli_arg(rng, v, P.value_for(rng, v, 2)) for v in VARS]
+        a_case([], args)
+        env = [(f'UNRELATED_{i}', 'v') for i in range(n)]
+        for v in VARS: env.insert(rng.below(len(env) + 1), (v, P.value_for(rng, v, 0)))
+        d_case(env)
+    # a long line BETWEEN two settings (comment, unknown key)
+    for n in (1000, 20000):
+        f_case([], 'port = 7001\n# ' + 'é' * n + '\nip = "10.1.1.1"\nlong_key = "' + 'v' * n + '"\nthread_count = 31\n[cors]\n' + 'x' * n + ' = 1\nmax_age = 9\n',
+               [('RWS_CONFIG_PORT', '7001'), ('RWS_CONFIG_IP', '10.1.1.1'), ('RWS_CONFIG_THREAD_COUNT', '31'), (G, '9')])
+    # tiny files
+    for f in ['\n', '#', '# ', '\r\n', ' ', '\t', '#\n', '##', '# é', '\n\n', 'é', '#é']:
+        f_case([('RWS_CONFIG_PORT', '6000')], f, [])
+    # a line across a chunk boundary
+    for i in range(8 if quick else 60):
+        bs = BOUNDS if i % 4 != 3 else [b * 1000 for b in (1, 2, 4, 8, 10, 16, 32, 64, 100)]
+        if i % 4 == 1: bs = [b for b in BOUNDS if b <= 8192]
+        if i % 4 == 2: bs = [b * rng.choice([1, 2, 3]) for b in (512, 1024, 1500, 4096, 8192, 9000, 10240, 12288, 16384, 24576, 40960)]; bs = sorted(set(bs))
+        text, order = boundary_file(P, rng, bs, eol=rng.choice(['\n', '\r\n']))
+        f_case([], text, order)
+    # unrelated variables that are not Unicode
+    for j in ([(b'LC_JUNK', b'\xff\xfe')], [(b'J\xc3\x28UNK', 'x')], [(b'\xff', b'\xff'), ('EMPTY', '')], [('RWS_CONFIG', '1'), ('RWS_CONFIG_', '2')]):
+        env = j + [(v, P.value_for(rng, v, 0)) for v in VARS if rng.chance(1, 2)]; rng.shuffle(env)
+        d_case(env)
+        a_case(env, [P.cli_arg(rng, v, P.value_for(rng, v, 2)) for v in VARS if rng.chance(1, 3)])
+        text, order = render_file2(P, rng, [(v, P.value_for(rng, v, 1)) for v in VARS if rng.chance(1, 3)]); f_case(env, text, order)
+    # a flag word without `=` in front of / behind a documented word
+    for s in P.SETTINGS:
+        o = rng.choice([x for x in P.SETTINGS if x[0] != s[0]])
+        for bare in ('--' + s[2], '-' + s[1]):
+            real = P.cli_arg(rng, o[0], P.value_for(rng, o[0], 2))
+            a_case([(s[0], 'E')] if rng.chance(1, 2) else [], [bare, real])
+            a_case([], [bare, P.cli_arg(rng, s[0], 'REAL')])
+            a_case([], [bare, 'word', real, bare])
+    # near-miss flags a Unicode case folding maps onto a documented one; a multi-byte character right behind the dashes
+    folded = ['--ıp=NM', '-ı=NM', '--İp=NM', '--İP=NM', '--cors-allow-headerſ=NM', '--corſ-max-age=NM', '-\u212a=NM', '--requeﬆ-allocation-size-in-bytes=NM',
+              '--ＰＯＲＴ=NM', '--ｐｏｒｔ=NM', '-ｐ=NM', '-é=NM', '--é=NM', '-中=NM', '--😀=NM', '--port\u0301=NM', '--thread‐count=NM', '--thread\u00adcount=NM',
+              '--cors-allow-all\u200d=NM', '-\u0440=NM', '--\u0440ort=NM', '-\u0456=NM', '-\u0435=NM', '-\u043e=NM', '-\u0441=NM', '--i\u0307p=NM']
+    for w in folded:
+        a_case([], [w])
+        a_case([], [w, '--ip=REAL', '-p=1'] if rng.chance(1, 2) else ['--ip=REAL', '-p=1', w])
+    # HISTORIES: the call after a long one, after a short one, after a failing one, after an empty one; twins of equal length
+    full = [(v, P.value_for(rng, v, 1)) for v in VARS]
+    tA, oA = render_file2(P, rng, full)
+    tB, oB = render_file2(P, rng, [(rng.choice(VARS), 'B')], unknown=False)
+    tC, oC = render_file2(P, rng, [(v, P.value_for(rng, v, 3)) for v in VARS if rng.chance(1, 3)] or [('RWS_CONFIG_IP', 'C')])
+    bad = 'port = 7001\nip = "10.1.1.1"\n[cors]\nmax_age = 5\nzzz = "\0"\nallow_all = false\n'
+    for text, order in ((tA, oA), (tB, oB), (tA, oA), ('', []), (tC, oC), (bad, None), (tB, oB), (bad, None), ('', []), (tA, oA), (tC, oC), (tC, oC)):
+        if order is None: add('cfgfile', ['-', C.hx(P.b(text))], 'x file failing, in a history')
+        else: f_case([], text, order)
+    for var in ('RWS_CONFIG_PORT', G, O):                # twins: same length, same first lines, one character differs
+        s = BYVAR[var]; hdr = '[cors]\n' if s[3] else ''
+        for v1, v2 in (('7001', '7002'), ('17001', '7001'), ('a.example', 'b.example')):
+            for v in (v1, v2, v1):
+                f_case([], f'ip = "10.0.0.1"\n{hdr}{s[4]} = "{v}"\n', [('RWS_CONFIG_IP', '10.0.0.1'), (var, v)])
+                a_case([], ['--ip=10.0.0.1', P.cli_arg(rng, var, v, 'long')])
+                d_case([('RWS_CONFIG_IP', '10.0.0.1'), (var, v)])
+    argsA = [P.cli_arg(rng, v, P.value_for(rng, v, 2)) for v in VARS]
+    for args in (argsA, ['-p=1'], argsA, [], ['--ip=x'], argsA[:3], [], argsA[5:]):
+        a_case([], list(args))
+    envA = [(v, P.value_for(rng, v, 0)) for v in VARS]
+    for env in (envA, [], envA[:1], envA, [], envA[4:], []):
+        d_case(list(env))
+        g = {k: P.b(v) for k, v in env if k in ('RWS_CONFIG_IP', 'RWS_CONFIG_PORT', 'RWS_CONFIG_THREAD_COUNT', 'RWS_CONFIG_REQUEST_ALLOCATION_SIZE_IN_BYTES')}
+        add('cfgget', [P.enc_env([(k, v) for k, v in env if k in g])], 'get', g)
     return out
